@@ -472,6 +472,9 @@ func propC04(r *Run, w *World) {
 		undo()
 	}
 	c04UnknownRoundTrip(r, w, "C04.R5")
+	// "type=T parses to RecordType exactly T, and prints as T again" rests on the two record-type
+	// tables being inverse of each other (shared with C20.R1)
+	recordTypeTables(r, w, "C04.R6")
 }
 
 func compactPathMU(p *Path) string {
@@ -1028,6 +1031,67 @@ func propC12(r *Run, w *World) {
 	if !x.ok {
 		return
 	}
+	// the text a message is parsed from is the message's own: Data() decodes lazily from
+	// RawData, so RawData must not be a view of a buffer somebody else goes on writing
+	r.Rule("C12.R7", "a message owns its text: the zero-copy []byte→string view (internal.UnsafeByteSlice2String) is applied only to the freshly decoded output of hexToString; Reassembler.Push hands auparse.Parse a string(rawData) copy of the caller's buffer", 2)
+	if uf, err := w.Func("internal", "UnsafeByteSlice2String"); err != nil {
+		r.Anchor(err)
+	} else {
+		n := 0
+		for _, cs := range w.CallSites(uf) {
+			n++
+			// ... or, generally, to bytes the calling function has just produced itself
+			okCaller := cs.Kind == "static" && (fnName(cs.Caller) == "auparse.hexToString" || func() bool {
+				ci, isCall := cs.Instr.(ssa.CallInstruction)
+				if !isCall || len(ci.Common().Args) != 1 {
+					return false
+				}
+				return allPhiLeaves(ci.Common().Args[0], func(v ssa.Value) bool {
+					for i := 0; i < 4; i++ {
+						if sl, isSl := v.(*ssa.Slice); isSl {
+							v = sl.X
+							continue
+						}
+						break
+					}
+					switch y := v.(type) {
+					case *ssa.MakeSlice:
+						return true
+					case *ssa.Convert:
+						_, fromString := y.X.Type().Underlying().(*types.Basic)
+						return fromString
+					case *ssa.Extract:
+						if c, isC := y.Tuple.(*ssa.Call); isC && y.Index == 0 {
+							n := calleeName(c)
+							return n == "auparse.decodeUppercaseHexString" || n == "encoding/hex.DecodeString"
+						}
+					}
+					return false
+				})
+			}())
+			r.Check(okCaller, "zero-copy string view in "+fnName(cs.Caller), cs.Instr.Pos(), "hexToString's own output", "a []byte is turned into a string without a copy in "+fnName(cs.Caller)+" ("+cs.Kind+"): if the bytes belong to a caller (the netlink receive buffer), the message text changes under the lazily decoding Data()")
+		}
+		r.Check(n >= 1, "zero-copy view census", uf.Pos(), "", "no call site of UnsafeByteSlice2String found")
+	}
+	if pf, err := w.Method("libaudit", "Reassembler", "Push"); err != nil {
+		r.Anchor(err)
+	} else {
+		okCopy := false
+		for _, c := range callsNamedIn(pf, "auparse.Parse") {
+			if len(c.Common().Args) == 2 {
+				if cv, isCv := c.Common().Args[1].(*ssa.Convert); isCv && isParamValue(cv.X, pf.Params[2]) {
+					okCopy = true
+				}
+			}
+		}
+		r.Check(okCopy, "Push parses a copy", pf.Pos(), "auparse.Parse(typ, string(rawData))", "Reassembler.Push does not hand auparse.Parse a string(rawData) copy: the buffered message aliases the caller's buffer")
+	}
+	// "Data returns the original value" fails first of all when Data does not return: the
+	// decoders it runs (hex, sockaddr, SELinux context, key/value extraction) must not index
+	// out of range on any record (shared with C05.R1, restricted to what Data reaches)
+	boundsRule(r, w, "C12.R6", "auparse", x.w.reachable([]*ssa.Function{x.data}, func(f *ssa.Function) bool {
+		return x.w.inPkg(f, "auparse") || x.w.inPkg(f, "internal")
+	}))
 	cv := func(name string) string {
 		c, err := w.Const("auparse", name)
 		if err != nil {
